@@ -596,7 +596,7 @@ def core_heads(run: lib.Run, groups=None, tag="", n_groups=None):
                      "/\\ wrap_tables_ok @TX@.tbl = true.\n"
                      "Proof. vm_compute. repeat split. Qed.\n"
                      "Theorem DispatchX_construct : forall E t tau dir cx r, heads_agree DX E t tau = 0 ->\n"
-                     "  Build.construct E dir cx (Build.unwrap tau) = Core.Ok r ->\n"
+                     "  Build.construct E dir cx (Build.unwrap E tau) = Core.Ok r ->\n"
                      "  exists k, kind_of @TX@.tbl (peel t) = Some k /\\ routine_bhead r = build_head k\n"
                      "    /\\ disp_u DX t = DOk (expected_u k) /\\ disp_m DX t = DOk (expected_m k).\n"
                      "Proof. exact (TL.Proofs.DispatchLemmas.construct_matches_dispatch DX (proj1 DispatchX_ok) "
